@@ -6,7 +6,7 @@ for D in "$@"; do
   D=$(realpath "$D"); PROP=$(basename "$(dirname "$D")")
   if ! git -C /repo diff --quiet; then echo "/repo dirty"; exit 3; fi
   git -C /repo apply "$D/patch.diff" || { echo "$D: patch does not apply"; continue; }
-  /verif/bin/check run "$PROP" --tier quick > /tmp/recheck.$$ 2>&1; rc=$?
+  VERIF_SHRINK_SECONDS=${VERIF_SHRINK_SECONDS:-8} /verif/bin/check run "$PROP" --tier quick > /tmp/recheck.$$ 2>&1; rc=$?
   git -C /repo checkout -- . && git -C /repo clean -fdq
   python3 - "$D/meta.json" "$rc" /tmp/recheck.$$ <<'PY'
 import json,sys
